@@ -149,6 +149,13 @@ func (b *BatchResult) addStats(st simrt.Stats, nontrivial bool) {
 
 const maxViolationsKept = 12
 
+// keeping reports whether the next violation would be stored with its full
+// workload (the first few are; the rest are only counted). Engines use it to
+// skip the expensive rendering of a workload that is not going to be kept.
+func (b *BatchResult) keeping() bool {
+	return b.onlyRun >= 0 || len(b.Violations) < maxViolationsKept
+}
+
 func (b *BatchResult) violation(v Violation) {
 	b.mix(hashStr(v.Class + v.Detail))
 	key := v.Property + "/" + v.Class
